@@ -158,6 +158,11 @@ Plan generate(uint64_t seed, uint64_t run, bool thorough) {
     p.set("nt", r.chance(0.6) ? 1 : draw_nt(r, 2, 32), 1);
     p.set("prehistory", r.range(0, 3), 0);
     p.set("heap_seed", (long)(r.next() >> 16), 0);
+    // bound the simulated work of one world (each is executed five times): a non-converging 100-iteration W-cycle solve on
+    // a 14-thread team is minutes of fiber switching and tests nothing a 10-iteration one does not
+    if (p.get("nt") > 4 && p.get("maxiter") > 12) p.set("maxiter", 12, 1);
+    if (p.get("ncycle") > 1 && p.get("maxiter") > 25) p.set("maxiter", 25, 1);
+    if (p.get("ncycle") > 1 && p.get("max_levels") > 4) p.set("max_levels", 4, 1);
     p.sched.strategy = sim::CANONICAL; p.sched.seed = r.next();
     return p;
 }
